@@ -15,7 +15,7 @@ type ResSummary struct {
 	LenParam     *ParamLin
 	ValParam     *ParamLin
 	NonNil       bool
-	NonNilOnOK   bool // non-nil on every return whose error result is the nil constant
+	NonNilOnOK   bool   // non-nil on every return whose error result is the nil constant
 	OKLo         *int64 // lower bound of the value / length on returns whose error result is nil
 	OKLenParam   *ParamLin
 }
@@ -627,4 +627,3 @@ type fieldInvRes struct {
 func (e *Engine) FieldInvariantWitness(v *types.Var) string {
 	return e.fieldInv[v].witness
 }
-
